@@ -9,6 +9,7 @@ import (
 	"github.com/storacha/go-ucanto/core/delegation"
 	"github.com/storacha/go-ucanto/core/receipt"
 	"github.com/storacha/go-ucanto/core/result"
+	"github.com/storacha/go-ucanto/server"
 	"github.com/storacha/go-ucanto/ucan"
 	"io"
 	"math/rand"
@@ -404,6 +405,14 @@ func reqOutcome(cw *CWorld, body []byte, hdr map[string]string) (string, string)
 	h := map[string][]string{}
 	for k, v := range hdr {
 		h[k] = []string{v}
+	}
+	// the same request at a deployment of the same methods that configures nothing else (every option at
+	// its default): whatever it answers, it answers
+	if dsrv, derr := server.NewServer(cw.P[cw.A.Authority].signer, append(cw.methodOptions(&runLog{}, &[]handlerCall{}, &sync.Mutex{}, nil),
+		server.WithErrorHandler(func(server.HandlerExecutionError[any]) {}))...); derr == nil {
+		if dresp, derr := dsrv.Request(thttp.NewHTTPRequest(bytes.NewReader(body), h)); derr == nil && dresp.Body() != nil {
+			io.Copy(io.Discard, dresp.Body())
+		}
 	}
 	resp, err := srv.Request(thttp.NewHTTPRequest(bytes.NewReader(body), h))
 	if err != nil {
